@@ -38,6 +38,10 @@ def name_variants(name):
     return list(dict.fromkeys([name.capitalize(), name.upper(), name.lower(), name.title(), name.replace(" ", "_"), name.title().replace(" ", "_")]))
 
 
+def fingerprint(data_format):
+    return tuple(sorted((k, repr(v)) for k, v in data_format.__dict__.items() if k.startswith("_") and not k.startswith("_VALID") and k != "_allowed_characters"))
+
+
 def judge(case, part):
     m = harness.modules()
     errors = m["errors"]
@@ -47,16 +51,25 @@ def judge(case, part):
     part.transitions += 1
     expect = case["expect"]
     tag = "%s|%s|%%s" % (case["group"], fmt)
-    try:
-        cid = harness.make_cid(rows)
-        outcome = "accept"
-    except errors.InterfaceError as error:
-        outcome = "refuse"
-        detail = str(error)
-    except Exception as error:
-        outcome = "raised-" + type(error).__name__
-        detail = repr(error)
+    def load():
+        try:
+            return "accept", "accepted", harness.make_cid(rows)
+        except errors.InterfaceError as error:
+            return "refuse", str(error), None
+        except Exception as error:
+            return "raised-" + type(error).__name__, repr(error), None
+
+    outcome, detail, cid = load()
     part.outcome(outcome)
+    # the same CID contents loaded a second time in this process: the verdict is a function of the contents
+    again, again_detail, cid_again = load()
+    part.transitions += 1
+    if again != outcome:
+        part.fail(tag % ("verdict-changes-when-loaded-again:%s-then-%s:%s" % (outcome, again, case.get("what", ""))), case, outcome, [again, again_detail])
+        return
+    if cid is not None and cid_again is not None and fingerprint(cid.data_format) != fingerprint(cid_again.data_format):
+        part.fail(tag % ("data-format-changes-when-loaded-again:" + case.get("what", "")), case, repr(fingerprint(cid.data_format)), repr(fingerprint(cid_again.data_format)))
+        return
     if expect != "either":
         part.validated += 1
         if expect in ("refuse",):
@@ -71,7 +84,7 @@ def judge(case, part):
         return
     if outcome == "accept":
         data_format = cid.data_format
-        part.state((fmt, tuple(sorted((k, repr(v)) for k, v in data_format.__dict__.items() if k.startswith("_") and not k.startswith("_VALID") and k != "_allowed_characters"))))
+        part.state((fmt, fingerprint(data_format)))
         for attribute, value in case.get("attrs", {}).items():
             part.validated += 1
             try:
